@@ -208,7 +208,7 @@ def gen_finite(rng, k, gen_case):
             # all energies of the sector are >= 0: "terminated with an energy consistent with zero. Orthogonality can not be guaranteed."
             case['model'] = m = {'name': 'fermion', 'J': rng.choice([1.0, 0.5]), 'V': rng.choice([6.0, 9.0]), 'mu': rng.choice([-4.0, -6.0]),
                                  'conserve': rng.choice(['N', 'parity'])}
-            case['init'] = ['empty', 'full'][:1] * 0 + [['empty', 'full'][i] for i in case['init_idx']]
+            case['init'] = [['empty', 'full'][i] for i in case['init_idx']]
         if sum(case['init_idx']) in (0, L) and m.get('conserve', 'Sz') in ('Sz', 'N'):
             case['init_idx'] = idx = [i % 2 for i in range(L)]                # (the sector needs more than one state)
             names = ['empty', 'full'] if m['name'] == 'fermion' else ['up', 'down']
@@ -232,8 +232,6 @@ def gen_finite(rng, k, gen_case):
         hc_model()
         opts['combine'] = False
         case['expect_error'] = 'NotImplementedError'
-    if case['engine'] == 'thread' and m['name'] == 'xxz':
-        pass        # (XXZChain2 is the CouplingMPOModel with explicit_plus_hc, chosen by the runner)
     return case
 
 
@@ -266,7 +264,9 @@ def gen_infinite(rng, k):
     elif feat == 'start_env_sites':
         # MPOEnvironment.init_first_LP_last_RP: "If start_env_sites is given as an integer, contract that many sites into the environment"
         case['init_env_data'] = {'start_env_sites': rng.choice([0, 1, 2, 3, 5])}
-        case['expect_env_age0'] = case['init_env_data']['start_env_sites']
+        if rng.random() < 0.5:
+            opts['start_env'] = 0           # no environment sweep at construction: the ages are those of init_LP / init_RP
+            case['expect_env_age0'] = case['init_env_data']['start_env_sites']
     elif feat == 'TM':
         case['init_env_data'] = {'force_init_method': rng.choice(['TM', 'iter'])}
         case['init_chi'] = rng.choice([None, 4])
@@ -397,7 +397,7 @@ def finite_oracle(case, r, dense_H, sector_mask, h_symmetry_labels, hist, tag=''
         wts = {int(l): np.linalg.norm(psi[labc == l]) for l in set(labc.tolist())}
         best = max(wts, key=wts.get)
         mask = labc == best
-        hist['ED_all_left_sector'] = hist.get('ED_all_left_sector', 0) + (r['q0'] != r[tag + 'q1'])
+        hist['ED_all_left_sector'] = hist.get('ED_all_left_sector', 0) + int(r['q0'] != r[tag + 'q1'])
     w = np.linalg.eigvalsh(H[np.ix_(mask, mask)])
     E0 = w[0]
     scale = max(1.0, np.abs(w).max())
@@ -424,3 +424,152 @@ def finite_oracle(case, r, dense_H, sector_mask, h_symmetry_labels, hist, tag=''
     if Eexp < E0 - 1e-10 * scale or E < E0 - 1e-9 * scale:
         probs.append('energy below the exact ground-state energy of the sector: E = %.12g, <H> = %.12g, E0 = %.12g' % (E, Eexp, E0))
     return probs, Eexp, w, scale
+
+
+def exact_clause(case, r, H, mask, psi, scale, h_symmetry_labels, hist, what):
+    """'two-site DMRG with a mixer reaches the exact ground-state energy and state' (same rule as the stream dmrg-finite of harness/c13.py:
+    the ground state of the explicitly conserved sector, or - when the model conserves less than H does - of the symmetry sector of H in
+    which the returned state lies)."""
+    probs = []
+    w, V = np.linalg.eigh(H[np.ix_(mask, mask)])
+    E0 = w[0]
+    lab = h_symmetry_labels(case)
+    wts = {int(l): np.linalg.norm(psi[mask & (lab == l)]) for l in set(lab[mask].tolist())}
+    mask2 = mask & (lab == max(wts, key=wts.get))
+    w2, V2 = np.linalg.eigh(H[np.ix_(mask2, mask2)])
+    if w2[0] > E0 + 1e-9 * scale and abs(r['E'] - w2[0]) < abs(r['E'] - E0):
+        w = w2
+        V = np.zeros((int(mask.sum()), V2.shape[1]), dtype=complex)
+        V[mask2[mask], :] = V2
+    E0x = w[0]
+    deg = int(np.sum(w < E0x + 1e-9 * scale))
+    gap = (w[deg] - E0x) if deg < len(w) else 1.0
+    if abs(r['E'] - E0x) > 1e-7 * scale:
+        probs.append('%s did not reach the exact energy: E = %.12g, E0 = %.12g (sweeps %d, chi %s)' % (what, r['E'], E0x, r['sweeps'], r['chi']))
+    elif gap > 1e-3:
+        ov = np.linalg.norm(V[:, :deg].conj().T @ psi[mask])
+        if ov < 1 - 1e-5:
+            probs.append('%s: exact energy but overlap with the ground-state eigenspace is %.8f' % (what, ov))
+        else:
+            hist['ext_exact_reached'] = hist.get('ext_exact_reached', 0) + 1
+    return probs
+
+
+KEY_MIXER_END = 'C13:DMRGEngine.post_run_cleanup:run-ends-with-active-mixer:state-not-canonical'
+
+
+def check_finite(ctx, case, r, helpers, hist):
+    """oracle of one finite case of the option strata; helpers = (dense_H, sector_mask, h_symmetry_labels)."""
+    dense_H, sector_mask, h_symmetry_labels = helpers
+    stream, feat = case['stream'], case['feature']
+    hist['feature_' + feat] = hist.get('feature_' + feat, 0) + 1
+    info = {'stream': stream, 'case': case}
+    if case.get('expect_error'):
+        ctx.count(stream, [feat, case['model'], case['L'], case['engine'], case['options']], nontrivial=True)
+        if not str(r.get('error', '')).startswith(case['expect_error']):
+            ctx.fail('oracle', 'feature %s: documented %s not raised (%s)' % (feat, case['expect_error'], r.get('error') or 'run returned E = %s' % r.get('E')),
+                     info, match_key='C13:' + stream + ':' + feat)
+        return
+    if 'error' in r:
+        ctx.count(stream, [feat, case['model'], case['L'], case['engine'], case['options']], nontrivial=True)
+        ctx.fail('oracle', 'feature %s: engine raised %s' % (feat, r['error']), dict(info, tb=r.get('tb')), match_key='C13:raises')
+        return
+    probs = []
+    allw = ' | '.join((r.get('warnings') or []) + (r.get('log_warnings') or []))
+    if case.get('expect_warning') and case['expect_warning'] not in allw:
+        probs.append('documented warning %r not issued (got: %s)' % (case['expect_warning'], allw[:300]))
+    # ---- every (E, psi) that a run() returned: earlier runs of the same engine first
+    for kk in range(int(case.get('rerun', 0))):
+        tag = 'run%d_' % kk
+        c0 = case
+        p0, Eexp0, _w, _s = finite_oracle(c0, r, dense_H, sector_mask, h_symmetry_labels, hist, tag=tag)
+        probs += ['run %d of the same engine: %s' % (kk, x) for x in p0]
+    cfin = case
+    if isinstance(case.get('reinit_env'), dict):
+        cfin = dict(case, model=case['reinit_env'])
+    p1, Eexp, w, scale = finite_oracle(cfin, r, dense_H, sector_mask, h_symmetry_labels, hist)
+    caveat = False
+    if case.get('orthogonal'):
+        # documented limitation (DMRGEngine.post_run_cleanup, KrylovBased option E_shift): the states projected out are exact eigenvectors
+        # of the projected effective Hamiltonian with eigenvalue 0 (independent of E_shift), so a target level that is not negative (after
+        # the shift) is not the lowest one: "Orthogonality can not be guaranteed", and the eigenvalue that is reported belongs to a
+        # projected-out vector.  Then only normalisation, canonical form and the charge sector are required.
+        n_o = int(case['orthogonal']['n'])
+        lp = case['options'].get('lanczos_params') or {}
+        shift = lp.get('E_shift', 0.0) if (r.get('N_lanczos_last') or [-1])[-1] >= 1 else 0.0
+        warned = 'energy consistent with zero' in allw
+        caveat = warned or (len(w) > n_o and w[n_o] + shift > -1e-6) or len(w) <= n_o
+        hist['ext_orth_target_level_not_negative'] = hist.get('ext_orth_target_level_not_negative', 0) + int(caveat)
+        if caveat:
+            p1 = [x for x in p1 if not (x.startswith('reported E') or x.startswith('energy below'))]
+    ended_with_mixer = bool(r.get('mixer_end'))
+    hist['ext_mixer_active_at_end'] = hist.get('ext_mixer_active_at_end', 0) + int(ended_with_mixer)
+    hist['ext_shelved'] = hist.get('ext_shelved', 0) + int(bool(r.get('shelve')))
+    if ended_with_mixer and p1 and all(('not canonical' in x or 'reported E' in x or 'not normalised' in x or 'non-diagonal' in x or 'differs from dense' in x) for x in p1):
+        ctx.fail('oracle', 'run ended (max_sweeps / shelved) with an active %s mixer: %s' % (case['options'].get('mixer'), '; '.join(p1[:3])),
+                 dict(info, impl={k_: r.get(k_) for k_ in ('E', 'E_mpo', 'norm_test', 'sweeps', 'chi', 'shelve')}), match_key=KEY_MIXER_END)
+        p1 = []
+    probs += p1
+    mask = sector_mask(cfin)
+    H = dense_H(cfin)
+    psi = np.array([complex(a, b) for a, b in r['psi']])
+    if case.get('rerun') and not isinstance(case.get('reinit_env'), dict):
+        # another run() on the converged state does not raise the energy (same model, same options)
+        E_prev = r['run%d_E' % (int(case['rerun']) - 1)]
+        if r['E'] > E_prev + 1e-8 * scale + 40 * scale * np.sqrt(max(r.get('last_trunc_err') or 0.0, 0.0)):
+            probs.append('second run() of the same engine raised the energy: %.12g -> %.12g' % (E_prev, r['E']))
+    # ---- feature-specific documented facts
+    if feat in ('shelve', 'shelve_mixer'):
+        nsc = case['options'].get('N_sweeps_check', 1)
+        want = r['sweeps'] == case['shelve_after'] * nsc
+        if bool(r.get('shelve')) != want:
+            probs.append('max_hours exceeded after %d iterations: engine.shelve = %s after %d sweeps' % (case['shelve_after'], r.get('shelve'), r['sweeps']))
+    elif r.get('shelve'):
+        probs.append('engine.shelve is set although max_hours was not exceeded')
+    if case.get('via_run') and r.get('info_keys') != ['E', 'bond_statistics', 'shelve', 'sweep_statistics']:
+        probs.append("dmrg.run returned the keys %s, documented: 'E', 'shelve', 'bond_statistics', 'sweep_statistics'" % r.get('info_keys'))
+    if case.get('chi_list_fn'):
+        want = doc_chi_list(*case['chi_list_fn'])
+        if r.get('chi_list_fn') != want:
+            probs.append('dmrg.chi_list%s = %s, documented ramp %s' % (tuple(case['chi_list_fn']), r.get('chi_list_fn'), want))
+        last = max(int(k_) for k_ in want)
+        if want[str(last)] < 2 ** (case['L'] // 2):
+            case = dict(case, ramp_exact=False)
+    if case.get('orthogonal'):
+        n_o = int(case['orthogonal']['n'])
+        lows = r.get('lower') or []
+        E_last = r.get('E_stats_last')
+        if E_last is not None and warned != (E_last > -1e-8):
+            probs.append('orthogonal_to: final energy %.3e, warning about an energy consistent with zero %s' % (E_last, 'issued' if warned else 'not issued'))
+        hist['ext_orth_warned'] = hist.get('ext_orth_warned', 0) + int(warned)
+        warned = caveat
+        if r.get('n_ortho') != n_o:
+            probs.append('engine holds %s environments for %d states to orthogonalise against' % (r.get('n_ortho'), n_o))
+        exact_lower = True
+        for j, lo in enumerate(lows):
+            pl = np.array([complex(a, b) for a, b in lo['psi']])
+            if abs(lo['E'] - w[j]) > 1e-8 * scale or abs(np.linalg.norm(pl) - 1) > 1e-8:
+                exact_lower = False
+            ov = abs(np.vdot(pl, psi))
+            if not warned and ov > 1e-6:
+                probs.append('orthogonal_to: |<state %d|psi>| = %.3e for the returned psi' % (j, ov))
+        if not warned and any(o > 1e-6 for o in (r.get('ortho_overlaps') or [])):
+            probs.append('orthogonal_to: MPS.overlap of the returned psi with the given states %s' % r.get('ortho_overlaps'))
+        if exact_lower and not warned and len(w) > n_o:
+            hist['ext_orth_exact_lower'] = hist.get('ext_orth_exact_lower', 0) + 1
+            # orthogonal to the n lowest eigenvectors of the sector: Rayleigh-Ritz bound by the next level
+            if Eexp < w[n_o] - 1e-7 * scale:
+                probs.append('orthogonal_to the %d lowest states of the sector: <H> = %.12g below the next level %.12g' % (n_o, Eexp, w[n_o]))
+            hist['ext_orth_reached_next_level'] = hist.get('ext_orth_reached_next_level', 0) + int(abs(r['E'] - w[n_o]) < 1e-7 * scale)
+    # ---- the exact clause
+    untrunc = (r.get('max_trunc_err') or 0.0) < 1e-18
+    if case.get('ramp_exact') and not ended_with_mixer:
+        probs += exact_clause(cfin, r, H, mask, psi, scale, h_symmetry_labels, hist, 'two-site DMRG with mixer and the chi_list of dmrg.chi_list (last entry does not truncate)')
+    elif case.get('exact') and untrunc and not ended_with_mixer and not r.get('shelve') and not case.get('orthogonal') and not case.get('any_sector'):
+        probs += exact_clause(cfin, r, H, mask, psi, scale, h_symmetry_labels, hist, 'untruncated two-site DMRG with mixer (%s)' % feat)
+    ctx.count(stream, [feat, case['model'], case['L'], case['engine'], case['init_idx'], case['options']], nontrivial=True,
+              sample={'feature': feat, 'model': case['model'], 'L': case['L'], 'engine': case['engine'], 'E': r['E'], 'E0': float(w[0]), 'sweeps': r['sweeps']})
+    if probs:
+        ctx.fail('oracle', 'feature %s: ' % feat + '; '.join(probs[:4]),
+                 dict(info, impl={k_: r.get(k_) for k_ in ('E', 'E_mpo', 'norm_test', 'sweeps', 'chi', 'shelve', 'mixer_end', 'warnings', 'log_warnings')}),
+                 match_key='C13:' + stream + ':' + feat)
